@@ -41,8 +41,8 @@ SITEMAP = b'<?xml version="1.0"?><urlset><url><loc>http://a.test/p3</loc></url><
 # value: dict(data=bytes, close=True, fail=None, path='/h', argv=[...])
 
 
-def _p(data, close=True, fail=None, path='/h', argv=()):
-    return dict(data=data, close=close, fail=fail, path=path, argv=list(argv))
+def _p(data, close=True, fail=None, path='/h', argv=(), prefiles=None):
+    return dict(data=data, close=close, fail=fail, path=path, argv=list(argv), prefiles=prefiles)
 
 
 def page_classes():
@@ -206,6 +206,13 @@ def page_classes():
                                   argv=['--content-disposition', '--restrict-file-names', 'windows'])
     c['cd_garbage'] = _p(resp(headers=(b'Content-Disposition: attachment; filename="\x00../../x\xff"; filename*=\xff',)),
                          argv=['--content-disposition'])
+    # a Content-Disposition that names a directory the crawl has made already; a NUL in it with control characters
+    # allowed in file names; --adjust-extension when NAME.html is a directory
+    c['cd_names_directory'] = _p(resp(headers=(b'Content-Disposition: attachment; filename=sub',)),
+                                 argv=['--content-disposition'], prefiles={'b.test/sub/keep.txt': 'k'})
+    c['cd_nul_nocontrol'] = _p(resp(headers=(b'Content-Disposition: attachment; filename="a\x00b"',)),
+                               argv=['--content-disposition', '--restrict-file-names=nocontrol'])
+    c['fn_adjust_extension_directory'] = _p(resp(), argv=['--adjust-extension'], prefiles={'b.test/h.html/keep.txt': 'k'})
     # ---- sitemaps
     sm = dict(path='/sitemap.xml/x', argv=['--sitemaps'])
     c['sm_gzip_garbage'] = _p(resp(b'\x1f\x8b' + b'garbage' * 5, ct=b'text/xml'), **sm)
